@@ -754,12 +754,12 @@ func (q Query) Reach(b *ssa.BasicBlock, i int, target func(ssa.Instruction) bool
 		blocked := false
 		for k := it.i; k < len(it.b.Instrs); k++ {
 			in := it.b.Instrs[k]
-			if target(in) {
-				return in, pathOf(it)
-			}
 			if q.Avoid != nil && q.Avoid(in) {
 				blocked = true
 				break
+			}
+			if target(in) {
+				return in, pathOf(it)
 			}
 		}
 		if blocked {
